@@ -136,14 +136,14 @@ LEDGER_NOTE = ("the equations about the chain's bank / token-factory / IBC ledge
                "callbacks only for packets in flight); the same equations are evaluated on every run by the executable monitors on an "
                "independent Python chain and the real contract's answers")
 
-prop("C01", module="MW.Props.C01", title="staked-asset accounting fully backed", builds=["osmosis", "miniwasm"],
+prop("C01", module="MW.Props.C01", title="staked-asset accounting fully backed", builds=["osmosis", "miniwasm"], extra=["migration"],
      variants=["liquid_stake", "receive_rewards", "submit_batch", "recover_pending_ibc_transfers", "reply", "sudo", "resume_contract"],
      state_keys=["state", "batches", "ibc_queue", "raw_totals"],
      weights={"stake": 22, "rewards": 10, "unstake": 10, "submit": 10, "ack": 12, "timeout": 5, "recover": 8, "resume": 3, "deliver": 6},
      quick_histories=80,
      assumptions=["StableRouting and NoForcedResendOfInFlight for the ledger-location part (DESIGN.md §4.4)", LEDGER_NOTE])
 
-prop("C02", module="MW.Props.C02", title="solvency of the contract-held staked asset",
+prop("C02", module="MW.Props.C02", title="solvency of the contract-held staked asset", extra=["migration"],
      variants=["liquid_stake", "receive_rewards", "receive_unstaked_tokens", "withdraw", "fee_withdraw",
                "recover_pending_ibc_transfers", "reply", "sudo"],
      state_keys=["state", "batches", "requests", "ibc_queue"],
@@ -157,7 +157,7 @@ prop("C03", module="MW.Props.C03", title="LST supply integrity and exact deliver
      profile={"equal_prefixes": None}, quick_histories=80,
      assumptions=[LEDGER_NOTE])
 
-prop("C07", module="MW.Props.C07", title="IBC transfers tracked and recovered",
+prop("C07", module="MW.Props.C07", title="IBC transfers tracked and recovered", extra=["migration"],
      variants=["liquid_stake", "receive_rewards", "recover_pending_ibc_transfers", "reply", "sudo"],
      state_keys=["ibc_queue", "reply_queue", "state"],
      weights={"stake": 22, "rewards": 8, "ack": 18, "timeout": 8, "recover": 16, "stray": 6, "advance": 4},
